@@ -519,6 +519,7 @@ private:
     }
     
     void internal_add_option(const option& opt);
+    static uint32_t option_size(const option& opt);
     serialization_type serialize_list(const std::vector<ipaddress_type>& ip_list);
     options_type::const_iterator search_option_iterator(OptionTypes opt) const;
     options_type::iterator search_option_iterator(OptionTypes opt);
